@@ -40,11 +40,17 @@ func Init() {
 func Arm()    { mu.Lock(); armed = true; mu.Unlock() }
 func Disarm() { mu.Lock(); armed = false; mu.Unlock() }
 
+// Reset zeroes the hit counter (one process measuring several executions).
+func Reset() { mu.Lock(); count = 0; labels = nil; mu.Unlock() }
+
 // Count returns the number of crash points passed so far.
 func Count() int { mu.Lock(); defer mu.Unlock(); return count }
 
 // Labels returns the recorded labels (count mode with VERIF_CRASH_LABELS).
 func Labels() []string { mu.Lock(); defer mu.Unlock(); return append([]string{}, labels...) }
+
+// OnHit, when set, observes every counted crash point (count mode of concurrent scenarios).
+var OnHit func(n int)
 
 func hit(label string) {
 	mu.Lock()
@@ -58,6 +64,9 @@ func hit(label string) {
 		labels = append(labels, label)
 	}
 	mu.Unlock()
+	if OnHit != nil {
+		OnHit(n)
+	}
 	if killAt > 0 && n == killAt {
 		Log("CRASH " + strconv.Itoa(n) + " " + label)
 		syscall.Kill(syscall.Getpid(), syscall.SIGKILL)
